@@ -27,6 +27,9 @@ RULE = ("corpus of recon inputs and past failures first (corpus/C19/cases.json),
         "define/const lists up to all scalars, module, export, units) and query/tag selections; in addition ONE exporter object per (environment, back-end) lives through a history "
         "parse, parse(other options), select, parse(same options), parse(other options), re-select, parse, parse(other options) "
         "and every parse is compared with the export of a fresh object for the selection and options then in force; "
+        "groups and names share prefixes (box / boxes, sim / simul, a / ab) so that a query must not take a neighbour; "
+        "export + save, then the same environment with values of equal printed length + save to the same path, and the file "
+        "is read back (mode 'w'); "
         "finally environments whose numeric nodes were re-assigned before the export (other unit of the same dimension, same "
         "unit, no unit; scalars and arrays) are exported as DIP text and re-read; non-trivial = selection contains an "
         "array or >= 3 parameters, or a history; distinct = canonical JSON of (source, back-end, options, selection)")
@@ -639,7 +642,8 @@ def build_array(shape, leaf):
 def gen_specs(rng, dip_types, n, special=False, arrays=True):
     specs = []
     used = set()
-    groups = ["", "", "box.", "sim.", "grp.sub."]
+    # groups and flat names that share a prefix (box / boxes, sim / simul, a / ab): a query `box.*` must not take `boxes.…`
+    groups = ["", "", "box.", "sim.", "grp.sub.", "boxes.", "simul.", "grp.", "a.", "ab."]
     by_kind = {}
     for kb in dip_types:
         by_kind.setdefault(kb[0], []).append(kb)
@@ -650,8 +654,8 @@ def gen_specs(rng, dip_types, n, special=False, arrays=True):
             if rng.random() < 0.25:
                 name = rng.choice(["", "", "", "box.", "sim."]) + rng.choice(KEYWORD_NAMES)
             else:
-                name = rng.choice(groups) + rng.choice(["a", "b", "cc", "width", "n1", "val", "name", "k9", "flag"]) + \
-                    rng.choice(["", "", "x", "2"])
+                name = rng.choice(groups) + rng.choice(["a", "b", "cc", "width", "n1", "val", "name", "k9", "flag", "boxy",
+                                                         "sim", "widths"]) + rng.choice(["", "", "x", "2"])
             key = name.upper().replace(".", "_")
             if key not in used and not any(u.startswith(name + ".") or name.startswith(u + ".") for u in
                                            [s[0] for s in specs]):
@@ -1795,6 +1799,80 @@ def gen_modified_source(rng, dip_types):
     return "\n".join(defs + mods) + "\n"
 
 
+# =============================================================== save() to one path, again after the values changed
+def same_length_value(rng, kind, bits, v):
+    """another value of the same kind whose printed text has the same length (128 -> 129, 0.25 -> 0.75, 'ab' -> 'ac')"""
+    if isinstance(v, list):
+        return [same_length_value(rng, kind, bits, x) for x in v]
+    if kind in ("int", "uint"):
+        lo, hi = int_range(kind, bits)
+        for d in (1, 9, 3, 7):
+            a = abs(v)
+            w = (a - a % 10 + (a % 10 + d) % 10) * (-1 if v < 0 else 1)
+            if lo <= w <= hi and len(str(w)) == len(str(v)) and w != v:
+                return w
+        return v
+    if kind == "float":
+        t = repr(v)
+        m = t.split("e")[0]
+        for i in range(len(m) - 1, -1, -1):
+            if m[i].isdigit():
+                for d in "5731":
+                    if d != m[i]:
+                        t2 = m[:i] + d + m[i + 1:] + t[len(m):]
+                        try:
+                            w = float(t2)
+                        except ValueError:
+                            continue
+                        if repr(w) == t2 and w != v and well_typed("float", w) and (bits != 32 or abs(w) < 1e30):
+                            return w
+                break
+        return v
+    if kind == "str":
+        if v and v[-1].isalnum() and ord(v[-1]) < 128:
+            c = "b" if v[-1] != "b" else "c"
+            return v[:-1] + c
+        return v
+    return v
+
+
+def run_save(ctx, src1, src2, backend, opts, workdir, tag):
+    """export + save, then export the changed environment + save to the SAME path: the file must hold the new text"""
+    r1, r2 = parse_env(src1), parse_env(src2)
+    if r1 is None or r2 is None:
+        return
+    cls = export_cls(backend)
+    kw = {"rename": opts.get("rename", True)} if backend in ("c", "cpp", "fortran", "rust", "bash") else {}
+    path = os.path.join(workdir, "save_%s.txt" % tag)
+    if os.path.exists(path):
+        os.remove(path)
+    texts = []
+    try:
+        for env in (r1[0], r2[0]):
+            with cls(env, **kw) as e:
+                texts.append(e.parse(**parse_kwargs(opts)))
+                e.save(path)                              # mode 'w'
+            with open(path, "rb") as f:
+                on_disk = f.read()
+            if len(texts) == 2:
+                break
+            first_ok = on_disk == texts[0].encode("utf-8")
+    except Exception:
+        return                                            # an export that raises is judged by the other streams
+    ctx.count("save." + backend)
+    if len(texts[0].encode("utf-8")) == len(texts[1].encode("utf-8")) and texts[0] != texts[1]:
+        ctx.count("save-equal-length." + backend)
+    if not first_ok:
+        ctx.violation("save:%s:first-write" % backend, "%s export saved to a new file: the file does not hold the exported text" % backend,
+                      {"source": src1, "source2": src2, "backend": backend, "opts": opts})
+    elif on_disk != texts[1].encode("utf-8"):
+        ctx.violation("save:%s:stale-file" % backend,
+                      "%s export saved again to the same path after the values changed (%d and %d bytes): the file still holds %r, "
+                      "the exported text is %r" % (backend, len(texts[0].encode("utf-8")), len(texts[1].encode("utf-8")),
+                                                 on_disk.decode("utf-8", "replace")[:200], texts[1][:200]),
+                      {"source": src1, "source2": src2, "backend": backend, "opts": opts})
+
+
 # =============================================================== histories on ONE exporter object
 def export_cls(backend):
     from scinumtools.dip import config as cfg
@@ -1959,6 +2037,19 @@ def correspond(ctx: Ctx):
         mod_cases.append(Case(src, r[0], r[1], "dip", {}, None, None, origin="modified"))
     for i in range(0, len(mod_cases), 400):
         run_cases(ctx, mod_cases[i:i + 400])
+    # save() twice to one path, the second time after value changes of equal printed length
+    work = tmpdir()
+    for k in range(120 if thorough else 25):
+        specs = gen_specs(rng, dip_types, rng.randint(1, 5), special=False)
+        specs2 = [(n, kd, b, same_length_value(rng, kd, b, v), u, t) for n, kd, b, v, u, t in specs]
+        src1, src2 = dip_source(specs), dip_source(specs2)
+        r = parse_env(src1)
+        if r is None:
+            continue
+        for b in BACKENDS:
+            o = gen_options(rng, b, r[1])
+            ctx.case([src1, src2, b, "save", o], True, None)
+            run_save(ctx, src1, src2, b, o, work, "%d_%s" % (k, b))
     ctx.extra["compilers"] = "gcc, g++, gfortran -ffree-line-length-none, rustc --edition 2021, bash"
 
 
@@ -1973,6 +2064,14 @@ def replay(ctx, payload):
     if pe is None:
         print("replay: the DIP source is rejected by the parser")
         return 2
+    if "source2" in r:
+        ascii_reports(ctx)
+        run_save(ctx, r["source"], r["source2"], r["backend"], r.get("opts") or {}, tmpdir(), "replay")
+        for v in ctx.violations:
+            print("VIOLATION [%s] %s" % (v["signature"], v["what"]))
+        if not ctx.violations:
+            print("replay: the file holds the exported text after both saves")
+        return 1 if ctx.violations else 0
     if "steps" in r:
         ascii_reports(ctx)
         run_history(ctx, r["source"], pe[0], pe[1], r["backend"], r["steps"])
